@@ -60,12 +60,15 @@ fn node(i: usize) -> DependencyNode {
 }
 
 /// C20, second sentence: the build-order resolver (Kahn) — BOUNDED only
-fn kahn_case(n: usize, edges: u32) -> Result<String, String> {
+fn kahn_case(n: usize, edges: u32, repeat: usize) -> Result<String, String> {
     let mut r = DependencyResolver::new();
     for i in 0..n { r.add_node(node(i)); }
-    for u in 0..n { for v in 0..n { if edges & (1 << (u * n + v)) != 0 {
-        r.add_dependency(Dependency { from: node(u), to: node(v), dependency_type: DependencyType::Field });
-    } } }
+    // `repeat` > 1: the same (from, to) pair is recorded several times, with different dependency kinds (a struct that uses a
+    // type both as a field and as a generic argument)
+    let kinds = [DependencyType::Field, DependencyType::Generic, DependencyType::Direct];
+    for k in 0..repeat { for u in 0..n { for v in 0..n { if edges & (1 << (u * n + v)) != 0 {
+        r.add_dependency(Dependency { from: node(u), to: node(v), dependency_type: kinds[k % 3].clone() });
+    } } } }
     let reach_m = reach(n, edges);
     let acyclic = (0..n).all(|u| edges & (1 << (u * n + u)) == 0 && (0..n).all(|v| u == v || !(reach_m[u][v] && reach_m[v][u])));
     match r.resolve_build_order() {
@@ -88,7 +91,9 @@ fn main() {
     for n in 1..=4usize {
         for edges in 0..(1u32 << (n * n)) {
             if n == 4 && Report::depth() < 5 && edges % 7 != 0 { continue; }
-            rep.case("resolve_build_order", &format!("n={} edges={}", n, edges), &|| kahn_case(n, edges));
+            rep.case("resolve_build_order", &format!("n={} edges={}", n, edges), &|| kahn_case(n, edges, 1));
+            if n <= 3 || edges % 5 == 0 { rep.case("resolve_build_order", &format!("n={} edges={} every edge recorded twice", n, edges), &|| kahn_case(n, edges, 2)); }
+            if n <= 3 { rep.case("resolve_build_order", &format!("n={} edges={} every edge recorded three times", n, edges), &|| kahn_case(n, edges, 3)); }
         }
     }
     // quick (depth <= 4): all graphs on <= 3 nodes, every 23rd graph on 4 nodes; thorough: all 65 536
